@@ -430,7 +430,8 @@ TEXT = ("Held on every history observed: ~1 800 (quick) / ~80 000 (thorough) his
         "each call made while frozen the definitions, index supports, query answers and data are compared with the "
         "freeze-time snapshot / the shadow, graph-changing calls must raise ValueError, value assignments must "
         "propagate, and a never-frozen twin replaying the accepted operations is compared after every operation, "
-        "before and after unfreezing. Exploration over sampled histories and call sequences.")
+        "before and after unfreezing. Exploration over sampled histories and call sequences."
+        ' While frozen, register() of a task object already in place is refused or changes nothing (index multiplicities included).')
 NOTE = ("Trusted: the classification of a call as graph-changing (generator's record of defined locations), the "
         "snapshot observer (dump(), index supports, find_deps/_tasks/_expr per location), the twin.")
 TECHNIQUE = "runtime monitoring: freeze-time snapshot invariant re-checked after every call + never-frozen twin execution + shadow value oracle"
